@@ -41,6 +41,7 @@ import (
 	"google.golang.org/protobuf/types/known/durationpb"
 	"larking.io/larking"
 
+	"verif/internal/backend"
 	"verif/internal/mon"
 	"verif/internal/svc"
 	"verif/internal/vschema"
@@ -162,7 +163,19 @@ func statusOf(sc *Script) *status.Status {
 
 // ------------------------------------------------------------- environment
 
-// Env is one mux (+ real server + clients) with the scripted handler.
+// side is one way of reaching the scripted handler: registered locally on
+// the mux, or on a real grpc.Server back-end that a second mux reaches
+// through RegisterConn (reflection proxy).
+type side struct {
+	Mux    *larking.Mux
+	Srv    *wire.Server
+	CC     *grpc.ClientConn
+	logOff int
+}
+
+// Env is the scripted handler behind two muxes (local / proxied target), each
+// with a real server and clients. Mux, Srv and CC are those of the target of
+// the case being executed (cases run one at a time).
 type Env struct {
 	Std *svc.Std
 	Mux *larking.Mux
@@ -171,10 +184,13 @@ type Env struct {
 	H1  *http.Client
 	H2  *http.Client
 
+	local, proxy *side
+	cur          *side
+	be           *backend.Backend
+
 	mu      sync.Mutex
 	scripts map[string]*entry
 	next    int
-	logOff  int
 }
 
 var envSeq int
@@ -186,33 +202,71 @@ func newEnv() (*Env, error) {
 		return nil, err
 	}
 	e := &Env{Std: std, scripts: map[string]*entry{}}
-	mux, err := std.NewMux(vschema.FuncImpl{U: e.unary, S: e.stream})
+	impl := vschema.FuncImpl{U: e.unary, S: e.stream}
+	mux, err := std.NewMux(impl)
 	if err != nil {
 		return nil, err
 	}
-	e.Mux = mux
-	srv, err := wire.StartLarking(mux, nil)
-	if err != nil {
+	if e.local, err = newSide(mux); err != nil {
 		return nil, err
 	}
-	e.Srv = srv
-	cc, err := wire.Dial(srv.Addr, grpc.WithDefaultCallOptions(grpc.MaxCallRecvMsgSize(64<<20)))
+	// the same handler on a real grpc.Server, reached through RegisterConn
+	if e.be, err = backend.Start("proto-be", true, backend.Svc{SD: std.SD, Impl: impl}); err != nil {
+		e.Close()
+		return nil, fmt.Errorf("back-end: %w", err)
+	}
+	pmux, err := larking.NewMux()
 	if err != nil {
-		srv.Close()
+		e.Close()
 		return nil, err
 	}
-	e.CC = cc
+	ctx, cancel := context.WithTimeout(context.Background(), 20*time.Second)
+	defer cancel()
+	if err := pmux.RegisterConn(ctx, e.be.CC); err != nil {
+		e.Close()
+		return nil, fmt.Errorf("RegisterConn: %w", err)
+	}
+	if e.proxy, err = newSide(pmux); err != nil {
+		e.Close()
+		return nil, err
+	}
+	e.use("")
 	e.H1 = wire.H1Client()
 	e.H2 = wire.H2CClient()
 	return e, nil
 }
 
-func (e *Env) Close() {
-	if e.CC != nil {
-		e.CC.Close()
+func newSide(mux *larking.Mux) (*side, error) {
+	srv, err := wire.StartLarking(mux, nil)
+	if err != nil {
+		return nil, err
 	}
-	if e.Srv != nil {
-		e.Srv.Close()
+	cc, err := wire.Dial(srv.Addr, grpc.WithDefaultCallOptions(grpc.MaxCallRecvMsgSize(64<<20)))
+	if err != nil {
+		srv.Close()
+		return nil, err
+	}
+	return &side{Mux: mux, Srv: srv, CC: cc}, nil
+}
+
+// use selects the target of the next case.
+func (e *Env) use(target string) {
+	e.cur = e.local
+	if target == "proxy" {
+		e.cur = e.proxy
+	}
+	e.Mux, e.Srv, e.CC = e.cur.Mux, e.cur.Srv, e.cur.CC
+}
+
+func (e *Env) Close() {
+	for _, sd := range []*side{e.local, e.proxy} {
+		if sd != nil {
+			sd.CC.Close()
+			sd.Srv.Close()
+		}
+	}
+	if e.be != nil {
+		e.be.Close()
 	}
 	if e.H1 != nil {
 		e.H1.CloseIdleConnections()
@@ -263,8 +317,8 @@ func (e *Env) record(id string, f func(*Rec)) {
 func (e *Env) newPanics() []*mon.PanicInfo {
 	log := e.Srv.ErrLog()
 	e.mu.Lock()
-	off := e.logOff
-	e.logOff = len(log)
+	off := e.cur.logOff
+	e.cur.logOff = len(log)
 	e.mu.Unlock()
 	if off >= len(log) {
 		return nil
@@ -495,6 +549,9 @@ type Case struct {
 	Script Script    `json:"script"`
 	ReqHdr []HdrSpec `json:"req_hdr,omitempty"`
 	Class  string    `json:"class,omitempty"` // generator's input class (part of finding keys)
+	// Target: "" = the handler is registered on the mux; "proxy" = it runs on a
+	// real grpc.Server that the mux reaches through RegisterConn.
+	Target string `json:"target,omitempty"`
 }
 
 func (c *Case) streaming() bool { return c.Method != "Echo" }
@@ -599,6 +656,7 @@ func (c *Case) reqHeaders(h http.Header, canonical bool) {
 // run executes the case and returns the client observation and the handler
 // record.
 func (e *Env) run(c *Case) (*Obs, Rec) {
+	e.use(c.Target)
 	sc := c.Script
 	id := e.register(&sc)
 	var o *Obs
